@@ -36,10 +36,10 @@ def run(ctx):
             p.kill(); rc = -9
         f.close()
         head = [l.strip() for l in open(path) if not l.startswith(("E ", "Q "))][:3]
-        if any(l.startswith("STUCK") for l in head) or rc == -9:
-            ctx.violation("hierarchy workload made no progress: %s" % head[:1], {"cmd": cmd}, signature="hier:stuck")
-        elif any(l.startswith("ORACLE VIOL") for l in head):
+        if any(l.startswith("ORACLE VIOL") for l in head):
             ctx.violation("hierarchy oracle: " + head[0][:300], {"cmd": cmd}, signature="hier:" + head[0][12:60])
+        elif any(l.startswith("STUCK") for l in head) or rc == -9:
+            ctx.violation("hierarchy workload made no progress: %s" % head[:1], {"cmd": cmd}, signature="hier:stuck")
         elif rc != 0 or not any(l.startswith("ORACLE ok") for l in head):
             ctx.violation("hierarchy workload died without a verdict (exit status %s): the library trapped or crashed" % rc, {"cmd": cmd}, signature="hier:crash")
         else:
